@@ -292,6 +292,8 @@ class DLChecker:
                 self.by_var[h["b"]] = (h["from"], h["to"], dl.parse_w(h["d"], "rdl"))
             elif h["h"] in ("learnt", "tconf"):
                 self.stats["lemmas" if h["h"] == "learnt" else "tconf"] += 1
+                if h["h"] == "tconf" and h.get("nf"):
+                    self.fail("explanation-with-non-false-literal", "the conflict clause %s contains literals that are not false when it is reported: %s" % (h["l"], h["nf"]))
                 if h["h"] == "learnt" and self.case.get("clauses") and self.z3:
                     v = self.z3_entails_clause(h["l"])    # conflict analysis may resolve with the input clauses
                 else:
